@@ -62,6 +62,15 @@ def streams : List (String × Stream) := ([] : List (String × Stream))
   |>.cons ("capiryw", CapiStream.streamRyw)
   |>.cons ("capix", CapixStream.stream)
   |>.cons ("hostcrash", HostCrashStream.stream)
+import Nervus.Driver.Crash
+open Nervus.Driver
+
+/-- stream registry: one line per stream (kept one-per-line so that merges are unions) -/
+def streams : List (String × Stream) := [
+  ("okey", OKeyStream.stream),
+  ("crash", CrashStream.stream),
+  ("fault", CrashStream.faultStream)
+]
 
 def main (args : List String) : IO UInt32 := do
   match args with
